@@ -81,6 +81,9 @@ func drawC11(rt *rapid.T) interface{} {
 			}
 			op.Plan = drawPlan(rt, len(op.Data))
 			op.Plan.TruncAt = -1
+			if op.Plan.FailAt > len(op.Data) {
+				op.Plan.FailAt = len(op.Data)
+			}
 			op.Neg = rapid.IntRange(0, 15).Draw(rt, "neg") == 0
 		case "writeto":
 			switch rapid.IntRange(0, 5).Draw(rt, "wfault") {
